@@ -66,6 +66,9 @@ def key_pool(rng, cap, nkeys, long_keys=True):
                 ln2 = rng.choice([3, 4, 6, 9, 16])
                 cut = rng.randrange(1, ln2 - 1)
                 k = bytes(rng.randrange(1, 256) for _ in range(cut)) + b'\0' + bytes(rng.randrange(1, 256) for _ in range(ln2 - cut - 1))
+        if rng.random() < 0.15:
+            # a C-string key (terminator included, as the string interface stores it): reachable through putstrf() as well
+            k = bytes(rng.randrange(1, 256) for _ in range(rng.choice([1, 3, 8, 15, 16, 20]))) + b'\0'
         if k in keys:
             continue
         h = murmur3_32(k) % cap
@@ -98,6 +101,14 @@ def gen_history(rng, cap, nops, nkeys, reloc=0.05):
                 old = lastval[ki]
                 v = rng.choice([old[:31], old[:32], old[:33], old[:32 + 66], old, old[:-1] + bytes([old[-1] ^ 1]), old + b'\x00']) or old
             lastval[ki] = v
+            kb = keys[ki]
+            if kb.endswith(b'\0') and b'\0' not in kb[:-1] and rng.random() < 0.5:
+                # the formatted-string interface: putstrf(key, "%s", text) stores the text with its terminator, whatever its length
+                n = rng.choice([1, 7, 31, 32, 33, 100, 255, 256, 1022, 1023, 1024, 1025, 1500])
+                txt = bytes(rng.randrange(1, 256) for _ in range(n))
+                lastval[ki] = txt + b'\0'
+                ops.append('putf %d %s' % (ki, hexs(txt)))
+                continue
             ops.append('put %d %s' % (ki, hexs(v)))
         elif r < 0.60:
             ops.append('get %d' % ki)
